@@ -173,6 +173,9 @@ func runC11Cell(t *testing.T, l lat, contents []c11Content, rep *Report) (cases 
 	paths := []string{"ping", "ack", "nack", "indirect", "gossip", "gossip-multi"}
 	for _, path := range paths {
 		for _, ct := range contents {
+			if rep.OverBudget() {
+				return
+			}
 			cs := c11Case{l, path, ct}
 			journal("C11 %v %s %v", l, path, ct)
 			cases++
